@@ -1041,12 +1041,160 @@ def extract_exprs():
     return "\n".join(lines)
 
 
+# ----------------------------------------------------------------------------- version step (translated)
+
+W32 = 2 ** 32
+
+
+def _split_top(toks, sep):
+    out, cur, depth = [], [], 0
+    for t in toks:
+        if t in OPEN:
+            depth += 1
+        elif t in OPEN.values():
+            depth -= 1
+        if t == sep and depth == 0:
+            out.append(cur)
+            cur = []
+        else:
+            cur.append(t)
+    out.append(cur)
+    return out
+
+
+class VP:
+    """value := atom ('.' method '(' args ')')*   over u32 / NonZeroU32 / Option<…> values.
+    Returns (kind, lean) with kind in {'nat', 'opt'}."""
+
+    def __init__(self, toks):
+        self.t = toks
+        self.i = 0
+
+    def peek(self, k=0):
+        return self.t[self.i + k] if self.i + k < len(self.t) else None
+
+    def take(self):
+        x = self.t[self.i]
+        self.i += 1
+        return x
+
+    def args(self):
+        if self.take() != "(":
+            raise ExtractError("expected (")
+        depth, start = 1, self.i
+        while depth:
+            t = self.take()
+            if t in OPEN:
+                depth += 1
+            elif t in OPEN.values():
+                depth -= 1
+        inner = self.t[start:self.i - 1]
+        return [a for a in _split_top(inner, ",") if a]
+
+    def value(self):
+        t = self.take()
+        if t == "self" and self.peek() == "." and self.peek(1) == "version":
+            self.i += 2
+            cur = ("nat", "v")
+        elif t == "VERSION_START":
+            cur = ("nat", "VERSION_START")
+        elif re.fullmatch(r"[0-9][0-9_]*(u32)?", t):
+            cur = ("nat", re.sub(r"u32$", "", t).replace("_", ""))
+        elif t == "NonZeroU32" and self.peek() == "::" and self.peek(1) == "new":
+            self.i += 2
+            a = self.args()
+            if len(a) != 1:
+                raise ExtractError("NonZeroU32::new takes one argument")
+            k, x = VP(a[0]).whole()
+            if k != "nat":
+                raise ExtractError("NonZeroU32::new of a non-number")
+            cur = ("opt", f"(if {x} = 0 then none else some {x})")
+        else:
+            raise ExtractError(f"unsupported token {t!r} in version expression {' '.join(self.t)}")
+        while self.peek() == ".":
+            self.take()
+            m = self.take()
+            a = self.args()
+            k, x = cur
+            if m == "get" and not a and k == "nat":
+                cur = ("nat", x)
+            elif m in ("wrapping_add", "checked_add", "saturating_add") and len(a) == 1 and k == "nat":
+                ka, y = VP(a[0]).whole()
+                if ka != "nat":
+                    raise ExtractError(f"{m} of a non-number")
+                if m == "wrapping_add":
+                    cur = ("nat", f"(({x} + {y}) % {W32})")
+                elif m == "checked_add":
+                    cur = ("opt", f"(if {x} + {y} < {W32} then some ({x} + {y}) else none)")
+                else:
+                    cur = ("nat", f"(min ({x} + {y}) {W32 - 1})")
+            elif m == "unwrap_or" and len(a) == 1 and k == "opt":
+                ka, y = VP(a[0]).whole()
+                cur = ("nat", f"(({x}).getD {y})")
+            elif m in ("expect", "unwrap") and k == "opt":
+                cur = ("opt", x)          # none = the documented panic
+            else:
+                raise ExtractError(f"unsupported method .{m}() on a {k} in version expression")
+        return cur
+
+    def whole(self):
+        r = self.value()
+        if self.i != len(self.t):
+            raise ExtractError(f"trailing tokens in version expression {' '.join(self.t)}")
+        return r
+
+
+def extract_version_steps():
+    ver = tokenize(read("src/version.rs"))
+    out = []
+    for T, pre in (("SlotVersion", "slotVersionNext"), ("ArchetypeVersion", "archVersionNext")):
+        for variant, attr in (("Wrapping", ["#", "[", "cfg", "(", "feature", "=", '"wrapping_version"', ")", "]"]),
+                              ("Checked", ["#", "[", "cfg", "(", "not", "(", "feature", "=", '"wrapping_version"', ")", ")", "]"])):
+            name = pre + variant
+            doc = f"src/version.rs `{T}::next`, the field initialiser under `{' '.join(attr)}`"
+            try:
+                blocks = list(impl_blocks(ver, lambda h: h == ["impl", T]))
+                if len(blocks) != 1:
+                    raise ExtractError(f"impl {T}: expected exactly one impl block")
+                lo, hi = fn_body(ver, blocks[0][0], blocks[0][1], "next")
+                tt = [t for (_, t) in ver[lo:hi]]
+                n = len(attr)
+                pos = [i for i in range(len(tt) - n) if tt[i:i + n] == attr]
+                if len(pos) != 1:
+                    raise ExtractError(f"{T}::next: expected exactly one `{' '.join(attr)}` initialiser, found {len(pos)}")
+                j = pos[0] + n
+                if tt[j:j + 2] != ["version", ":"]:
+                    raise ExtractError(f"{T}::next: the cfg attribute does not decorate a `version:` initialiser")
+                e = j + 2
+                depth = 0
+                while not ((tt[e] == "," or tt[e] == "}") and depth == 0):
+                    if tt[e] in OPEN:
+                        depth += 1
+                    if tt[e] in OPEN.values():
+                        depth -= 1
+                    e += 1
+                toks = tt[j + 2:e]
+                k, x = VP(toks).whole()
+                body = x if k == "opt" else f"some {x}"
+                out.append((name, body, " ".join(toks), doc))
+            except (ExtractError, IndexError, ValueError, KeyError) as ex:
+                out.append((name, "none", f"NOT RECOGNISED: {ex}", doc))
+    lines = []
+    for (name, body, src, doc) in out:
+        lines.append(f"/-- {doc}: `{src}` (`none` = the documented overflow panic) -/")
+        lines.append(f"def {name} (v : Nat) : Option Nat := {body}")
+        lines.append("")
+    return "\n".join(lines)
+
+
+
+
 def main():
     os.makedirs(GEN, exist_ok=True)
     try:
         files = {"Consts.lean": extract_consts(), "Tokens.lean": extract_tokens(), "Fields.lean": extract_fields()}
         files["FieldsAst.lean"] = fields_ast(_FIELD_ROWS)
-        files["Exprs.lean"] = extract_exprs()
+        files["Exprs.lean"] = extract_exprs().replace("end Gecs.Gen\n", extract_version_steps() + "\nend Gecs.Gen\n")
         sig_text, sig_rows = extract_sigs()
         ref_rows = extract_ref_impls()
         sig_text = sig_text.replace("\nend Gecs.Gen\n", "\n/-- reference-to-reference conversion impls of src/** (header, is the produced reference tied to the\nconsumed one by the same named lifetime?) -/\ndef refImpls : List (String × Bool) := [\n"
